@@ -145,6 +145,8 @@ pub struct Report {
     pub started: Instant,
     pub evaluations: u64,
     pub distinct: BTreeSet<u64>,
+    /// distinct non-trivial cases counted by child processes (their sets are disjoint by construction)
+    pub distinct_children: u64,
     pub rule: String,
     pub samples: Vec<Value>,
     pub counts: BTreeMap<String, u64>,
@@ -169,6 +171,7 @@ impl Report {
             started: Instant::now(),
             evaluations: 0,
             distinct: BTreeSet::new(),
+            distinct_children: 0,
             rule: rule.to_string(),
             samples: Vec::new(),
             counts: BTreeMap::new(),
@@ -249,6 +252,38 @@ impl Report {
         }
     }
 
+    /// Merges the report a child process wrote (same JSON shape as `to_json`).
+    pub fn merge_child(&mut self, v: &Value) {
+        self.evaluations += v["evaluations"].as_u64().unwrap_or(0);
+        self.distinct_children += v["distinct_nontrivial"].as_u64().unwrap_or(0);
+        if let Some(m) = v["observed"].as_object() {
+            for (k, n) in m {
+                *self.counts.entry(k.clone()).or_insert(0) += n.as_u64().unwrap_or(0);
+            }
+        }
+        if let Some(a) = v["samples"].as_array() {
+            for s in a {
+                if self.samples.len() < self.max_samples {
+                    self.samples.push(s.clone());
+                }
+            }
+        }
+        self.inconclusive_count += v["inconclusive_cases"].as_u64().unwrap_or(0);
+        for r in v["run_inconclusive"].as_array().cloned().unwrap_or_default() {
+            self.run_inconclusive.push(r.as_str().unwrap_or("?").to_string());
+        }
+        for viol in v["violations"].as_array().cloned().unwrap_or_default() {
+            let sig = viol["signature"].as_str().unwrap_or("?").to_string();
+            let e = self.violations.entry(sig).or_insert((0, Vec::new()));
+            e.0 += viol["count"].as_u64().unwrap_or(1);
+            for w in viol["witnesses"].as_array().cloned().unwrap_or_default() {
+                if e.1.len() < 3 {
+                    e.1.push((w["observed"].clone(), w["replay"].as_str().unwrap_or("").to_string()));
+                }
+            }
+        }
+    }
+
     pub fn to_json(&self) -> Value {
         let violations: Vec<Value> = self
             .violations
@@ -267,7 +302,7 @@ impl Report {
             "tier": match self.tier { Tier::Quick => "quick", Tier::Thorough => "thorough" },
             "seed": self.seed,
             "evaluations": self.evaluations,
-            "distinct_nontrivial": self.distinct.len(),
+            "distinct_nontrivial": self.distinct.len() as u64 + self.distinct_children,
             "rule": self.rule,
             "samples": self.samples,
             "observed": self.counts,
@@ -300,7 +335,7 @@ impl Report {
             self.prop,
             self.engine,
             self.evaluations,
-            self.distinct.len(),
+            self.distinct.len() as u64 + self.distinct_children,
             nviol,
             self.violations.len(),
             self.inconclusive_count,
